@@ -18,8 +18,11 @@ def main():
     ap.add_argument("ids", nargs="*")
     ap.add_argument("--tier", default="quick")
     ap.add_argument("--checks", default=None)
+    ap.add_argument("--dir", default="seeded", help="seeded (breaking changes: an alarm is wanted) or benign (behaviour-preserving "
+                    "refactorings kept in /verif/benign/<id>/: the checks must stay quiet)")
     a = ap.parse_args()
-    sd = os.path.join(ROOT, "seeded")
+    sd = os.path.join(ROOT, a.dir)
+    benign = a.dir == "benign"
     ids = a.ids or sorted(d for d in os.listdir(sd) if os.path.isfile(os.path.join(sd, d, "meta.json")))
     resf = os.path.join(sd, "RESULTS.json")
     results = json.load(open(resf)) if os.path.exists(resf) else {}
@@ -63,7 +66,8 @@ def main():
                             why = (rp.get("why") or rp.get("summary") or "")[:200]
                         except Exception:
                             pass
-                    print("%-28s %s rc=%d %s %s" % (sid, pid, p.returncode, "CAUGHT" if p.returncode == 1 and vio else "MISSED", why), flush=True)
+                    print("%-28s %s rc=%d %s %s" % (sid, pid, p.returncode, (("QUIET" if p.returncode == 0 and not vio else "ALARM") if benign else
+                                                            ("CAUGHT" if p.returncode == 1 and vio else "MISSED")), why), flush=True)
                 results[sid] = res
             finally:
                 subprocess.run(["git", "-C", REPO, "checkout", "--", "."])
